@@ -206,7 +206,7 @@ EFFECT_CONTRACTS = [
     dict(id='frame.add_description', prop='C19', kind='frame-only',
          select={'functions': ['cnfgen/transformations/substitutions.py:add_description']},
          clause='modifies exactly F.header (the dict object), nothing else reachable from F or text',
-         allowed=[('F', 1, 'header')], min_functions=1),
+         allowed=[('F', ('header',))], min_functions=1),
     dict(id='frame.families', prop='C19', kind='frame',
          select={'files': 'cnfgen/families/*.py', 'public': True},
          clause='does not mutate its graph / list / other arguments',
